@@ -1336,14 +1336,15 @@ public:
         if (matches[i] == 1)   // transfer reduction from rows that are assigned once.
         {
           j1 = static_cast<size_t>(rowSol[i]); // rowSol[i] is >= 0 here
-          min = -std::log(0);
+          min = big;
           for (j = 0; j < dim; j++)
           {
             if (j != j1)
               if (assignCost(i, j) - v[j] < min)
                 min = assignCost(i, j) - v[j];
           }
-          v[j1] = v[j1] - min;
+          if (dim > 1) // with a single column there is no other reduced cost to transfer
+            v[j1] = v[j1] - min;
         }
       }
     }
